@@ -402,6 +402,9 @@ impl Clone for TransitionCycle {
         hide(usage_same_except);
         hide(ids_valid);
         hide(tour_wf);
+        hide(all_depots);
+        hide(all_in_net);
+        hide(len_ok);
         hide(has_service);
         hide(svc_filter);
         hide(ids_gain);
